@@ -176,7 +176,8 @@ func runSCIONServer(ctx context.Context, log *slog.Logger, mtrcs *scionServerMet
 			scionLayer.RawDstAddr, scionLayer.RawSrcAddr = scionLayer.RawSrcAddr, scionLayer.RawDstAddr
 			scionLayer.Path, err = scionLayer.Path.Reverse()
 			if err != nil {
-				panic(err)
+				log.LogAttrs(ctx, slog.LevelInfo, "failed to reverse path", slog.Any("error", err))
+				continue
 			}
 			scionLayer.NextHdr = slayers.L4SCMP
 
@@ -230,11 +231,13 @@ func runSCIONServer(ctx context.Context, log *slog.Logger, mtrcs *scionServerMet
 
 		srcAddr, ok := netip.AddrFromSlice(scionLayer.RawSrcAddr)
 		if !ok {
-			panic("unexpected IP address byte slice")
+			log.LogAttrs(ctx, slog.LevelInfo, "failed to decode packet", slog.String("cause", "unexpected source address"))
+			continue
 		}
 		dstAddr, ok := netip.AddrFromSlice(scionLayer.RawDstAddr)
 		if !ok {
-			panic("unexpected IP address byte slice")
+			log.LogAttrs(ctx, slog.LevelInfo, "failed to decode packet", slog.String("cause", "unexpected destination address"))
+			continue
 		}
 
 		if int(udpLayer.DstPort) != localHostPort {
@@ -332,7 +335,7 @@ func runSCIONServer(ctx context.Context, log *slog.Logger, mtrcs *scionServerMet
 			if fetcher != nil && len(decoded) >= 3 &&
 				decoded[len(decoded)-2] == slayers.LayerTypeEndToEndExtn {
 				authOpt, err = e2eLayer.FindOption(slayers.OptTypeAuthenticator)
-				if err == nil {
+				if err == nil && len(authOpt.OptData) == scion.PacketAuthOptDataLen {
 					spi, algo := scion.PacketAuthOptMetadata(authOpt)
 					if spi == scion.PacketAuthSPIClient && algo == scion.PacketAuthAlgorithm {
 						hostASKey, err := fetcher.FetchHostASKey(ctx, drkey.HostASMeta{
@@ -455,7 +458,8 @@ func runSCIONServer(ctx context.Context, log *slog.Logger, mtrcs *scionServerMet
 			scionLayer.RawDstAddr, scionLayer.RawSrcAddr = scionLayer.RawSrcAddr, scionLayer.RawDstAddr
 			scionLayer.Path, err = scionLayer.Path.Reverse()
 			if err != nil {
-				panic(err)
+				log.LogAttrs(ctx, slog.LevelInfo, "failed to reverse path", slog.Any("error", err))
+				continue
 			}
 			scionLayer.NextHdr = slayers.L4UDP
 
